@@ -15,9 +15,15 @@ use std::io::Cursor;
 use tokio::io::{AsyncReadExt, AsyncWriteExt};
 use tokio::net::TcpStream;
 
+/// Transport of a connection: a TCP stream, or (verification harness only) an in-memory pipe.
+#[cfg(not(feature = "verif"))]
+type Sock = TcpStream;
+#[cfg(feature = "verif")]
+type Sock = crate::verif_io::Sock;
+
 pub struct Connection {
     pub addr: String,
-    socket: Option<TcpStream>,
+    socket: Option<Sock>,
     buffer: BytesMut,
 }
 
@@ -31,8 +37,20 @@ impl Connection {
     }
 
     pub fn with_socket(&mut self, socket: TcpStream) -> &mut Self {
-        self.socket = Some(socket);
+        self.socket = Some(socket.into());
         self
+    }
+
+    /// In-memory transport and buffer length, for the verification harness.
+    #[cfg(feature = "verif")]
+    pub fn verif_with_mem(&mut self, mem: tokio::io::DuplexStream) -> &mut Self {
+        self.socket = Some(mem.into());
+        self
+    }
+
+    #[cfg(feature = "verif")]
+    pub fn verif_buffer_len(&self) -> usize {
+        self.buffer.len()
     }
 
     pub async fn send_frame(&mut self, frame: &Frame) -> Result<(), Box<dyn std::error::Error>> {
